@@ -17,6 +17,12 @@ TEXT = {
  "C09": doc("TLC enumerates documents over all element kinds; TextEqualsHtml, ImagesFromHtml, WordCount evaluated by TLC on each real run.", "DESIGN.md 7 C09"),
 }
 
+TEXT["C18"] = dict(
+    level="TLC checks, for every vector of the rule-relevant feature product, that the rule-by-rule machine transcribed from the classifier (code order, code-derived row/column/cell counts) gives the verdict of the cascade as documented; every vector is then built as a real table at four placements, Apply is run, and TLC validates the real classifier's verdict (hook) and the table's fate in the output against Documented(f). Exhaustive over the stated feature values in the thorough tier.",
+    ref="DESIGN.md 7 C18",
+    note="trusted base: TLC 1.8; spec/TableClass.tla Documented (transcribed from the property text); harness/fam_table.go builds the table as TableClass!Build says (re-measured on the parsed tree); verdict read from the verif hook TableClass/TableInfo",
+    technique="TLA+ decision-list model + TLC exhaustive feature product; real-code runs validated by TLC against spec/trace/TableTrace.tla")
+
 NOT_APPLICABLE = {
  "C01": "check under construction in this round (spec/Distiller.tla root/option machine); not yet registered",
  "C06": "check under construction in this round (spec/UrlResolve.tla); not yet registered",
